@@ -41,6 +41,18 @@ def state_decode(p):
     }
 
 
+def state_matches(r, p):
+    """every field of the state response r equals the vendor decoding of the body p (C11 / C01)"""
+    D = state_decode(p)
+    return (r.power_on == D['power'] and r.operational_mode == D['mode'] and r.target_temperature == D['temperature']
+            and r.fan_speed == D['fan'] and r.swing_mode == D['swing'] and r.turbo == D['turbo'] and r.eco == D['eco']
+            and r.sleep == D['sleep'] and r.fahrenheit == D['fahrenheit'] and r.purifier == D['purifier']
+            and r.follow_me == D['follow_me'] and r.aux_heat == D['aux'] and r.independent_aux_heat == D['independent_aux']
+            and r.filter_alert == D['filter'] and r.display_on == D['display'] and r.target_humidity == D['humidity']
+            and r.freeze_protection == D['freeze']
+            and (r.indoor_temperature is None) == (p[11] == 0xFF) and (r.outdoor_temperature is None) == (p[12] == 0xFF))
+
+
 def coarse(data):
     return (data - 50) / 2
 
@@ -185,7 +197,8 @@ contract(CMD + "Response.construct",
                   "outer_checksum": "outer_ok(frame)",
                   "body_check_unless_properties": "isinstance(result, PropertiesResponse) or body_check_ok(frame[10:-1])",
                   "dispatch": "type(result) is response_class_of(frame)",
-                  "payload": "result._payload == frame[10:-2] and result._id == frame[10]"},
+                  "payload": "result._payload == frame[10:-2] and result._id == frame[10]",
+                  "c01.state_fields_are_the_decoded_body": "implies(isinstance(result, StateResponse), len(frame) >= 28 and state_matches(result, frame[10:-2]))"},
          raises={"msmart.frame.InvalidFrameException": {"when": "len(frame) < 13 or not outer_ok(frame)"},
                  CMD + "InvalidResponseException": {}})
 
